@@ -1,5 +1,6 @@
 use crate::core::defs::{PrintForLog, SaitoHash, Timestamp};
 use std::fmt::{Debug, Formatter};
+use std::io::{Error, ErrorKind};
 
 pub struct GhostChainSync {
     pub start: SaitoHash,
@@ -45,6 +46,18 @@ impl GhostChainSync {
         ]
         .concat()
     }
+    /// Checks the length the buffer declares (36 bytes + 82 per entry) before decoding.
+    pub fn deserialize_checked(buffer: Vec<u8>) -> Result<GhostChainSync, Error> {
+        if buffer.len() < 36 {
+            return Err(Error::from(ErrorKind::InvalidData));
+        }
+        let count = u32::from_be_bytes(buffer[32..36].try_into().unwrap()) as u64;
+        if (buffer.len() as u64) < 36 + 82 * count {
+            return Err(Error::from(ErrorKind::InvalidData));
+        }
+        Ok(GhostChainSync::deserialize(buffer))
+    }
+    /// The caller must have checked the length (see `deserialize_checked`).
     pub fn deserialize(buffer: Vec<u8>) -> GhostChainSync {
         let start: SaitoHash = buffer[0..32].to_vec().try_into().unwrap();
         let count: usize = u32::from_be_bytes(buffer[32..36].try_into().unwrap()) as usize;
